@@ -200,17 +200,20 @@ Qed.
 Definition ex_f (v : val) : val := match v with VInt z => VInt (z + 1)%Z | _ => v end.
 Definition ex_g (v : val) : val := match v with VInt z => VInt (z * 2)%Z | _ => v end.
 Definition ex_ds : list lds :=
-  [LMap 2 ex_f (LSrc 1 [VInt 1; VInt 2; VInt 3]%Z); LMap 4 ex_g (LSrc 3 [VInt 10]%Z)].
+  [LMap 2 ex_f (LSrc 1 [VInt 1; VInt 2; VInt 3]%Z); LMap 4 ex_g (LSrc 3 [VInt 10; VInt 20]%Z)].
 
 Example inter_example :
-  inter_order ex_ds = [0; 0; 1; 0] /\
+  inter_order ex_ds = [0; 1; 0; 0; 1] /\
   events_upto 1 (inter_s 9 ex_ds) = [Fetch 1; App 2 (VInt 1%Z); Fetch 2; Fetch 9] /\
   apps_of 2 (events_upto 1 (inter_s 9 ex_ds)) = [VInt 1%Z] /\
   apps_of 4 (events_upto 1 (inter_s 9 ex_ds)) = [] /\
-  apps_of 4 (events_upto 2 (inter_s 9 ex_ds)) = [] /\
-  apps_of 4 (events_upto 3 (inter_s 9 ex_ds)) = [VInt 10%Z] /\
-  values (inter_s 9 ex_ds) = [VInt 2; VInt 3; VInt 20; VInt 4]%Z /\
-  inter_ref ex_ds = [VInt 2; VInt 3; VInt 20; VInt 4]%Z.
+  events_upto 2 (inter_s 9 ex_ds) =
+    [Fetch 1; App 2 (VInt 1%Z); Fetch 2; Fetch 9; Fetch 3; App 4 (VInt 10%Z); Fetch 4; Fetch 9] /\
+  apps_of 4 (events_upto 2 (inter_s 9 ex_ds)) = [VInt 10%Z] /\
+  apps_of 2 (events_upto 2 (inter_s 9 ex_ds)) = [VInt 1%Z] /\
+  apps_of 4 (events_upto 4 (inter_s 9 ex_ds)) = [VInt 10%Z] /\
+  values (inter_s 9 ex_ds) = [VInt 2; VInt 20; VInt 3; VInt 4; VInt 40]%Z /\
+  inter_ref ex_ds = [VInt 2; VInt 20; VInt 3; VInt 4; VInt 40]%Z.
 Proof. vm_compute. repeat split; reflexivity. Qed.
 
 Print Assumptions inter_values_ref.
